@@ -76,7 +76,14 @@ EXERCISED = (
     "subscriber failing while another one is still busy with the same frame; retry policies "
     "and heartbeat configurations built positionally; two consoles in one process whose "
     "frames announce different record lengths; a version list that changes while the update "
-    "flag stays")
+    "flag stays; two clients in one process both holding messages for links that are down; "
+    "unicast searches answered with the searched address in the host field and a second answer "
+    "behind it; sends on never-opened and closed sockets with every retry policy through both "
+    "entry points; an application cancelling a pending init() itself (wait_for) and calling "
+    "it again; reconnections whose very first write fails; sockets with no connection "
+    "subscriber, no message subscriber or none at all; version lists with the same strings "
+    "in another order or multiplicity; caller-supplied headers equal to the header of a "
+    "message that is still waiting; a capability bit as the only change in a status frame")
 
 T = """You are helping to evaluate a verification harness by producing a *subtle, realistic regression* in a Python library.
 
